@@ -328,6 +328,58 @@ def rule_raw_columns(ctx, repo):
                       ", ".join("%s(%d)" % (v, k) for k, v in sorted(missing.items()))), "%s:%d" % (rel, fn.lineno))
 
 
+# reference conversion formulas for PSS/E v33 records (MW/Mvar at 1 p.u. voltage -> per unit on the system base);
+# constant-current and constant-admittance load parts are referred to the power-flow voltage; YQ is negative for inductive load
+RAW_FORMULAS = {
+    ("_parse_load_v33", "PQ"): {"p0": "(d5 + d7 * v0 + d9 * v0 ** 2) / mva", "q0": "(d6 + d8 * v0 - d10 * v0 ** 2) / mva", "u": "d2", "bus": "d0"},
+    ("_parse_fshunt_v33", "Shunt"): {"g": "d3 / mva", "b": "d4 / mva", "u": "d2", "bus": "d0"},
+    ("_parse_gen_v33", "PV"): {"p0": "d2 / mva", "q0": "d3 / mva", "qmax": "d4 / mva", "qmin": "d5 / mva", "v0": "d6", "Sn": "d8",
+                               "pmax": "d16 / mva", "pmin": "d17 / mva", "u": "status", "bus": "bus"},
+    ("_parse_line_v33", "Line"): {"r": "d3", "x": "d4", "b": "d5", "g1": "d9", "b1": "d10", "g2": "d11", "b2": "d12", "u": "d13",
+                                  "bus1": "d0", "bus2": "d1"},
+}
+
+
+def rule_raw_formulas(ctx, repo):
+    import sympy as sp
+    from engine.pyexpr import to_sympy, PyExprError
+    adds = {(f, m): (keys, node) for rel, f, m, keys, node in _importer_adds(repo) if rel.endswith("psse.py")}
+    for (fname, model), ref in RAW_FORMULAS.items():
+        if (fname, model) not in adds:
+            raise AnalysisError("PSS/E importer record %s/%s not recognised" % (fname, model))
+        keys, node = adds[(fname, model)]
+        fn = repo.func("andes/io/psse.py", fname)
+        # local aliases of data[k] (bus = data[0], status = data[14], ...)
+        alias = {}
+        for n in ast.walk(fn):
+            if isinstance(n, ast.Assign) and len(n.targets) == 1 and isinstance(n.targets[0], ast.Name):
+                m = Q.match("data[$k]", n.value)
+                if m and isinstance(m["k"], ast.Constant):
+                    alias[n.targets[0].id] = "d%d" % m["k"].value
+        bad = []
+        for k, want in ref.items():
+            if k not in keys:
+                bad.append("`%s` is not imported" % k)
+                continue
+            txt = src(keys[k])
+            import re
+            txt2 = re.sub(r"data\[(\d+)\]", r"d\1", txt)
+            for a_, d_ in alias.items():
+                txt2 = re.sub(r"\b%s\b" % a_, d_, txt2)
+            want2 = want
+            for a_, d_ in alias.items():
+                want2 = re.sub(r"\b%s\b" % a_, d_, want2)
+            try:
+                g_ = to_sympy(ast.parse(txt2, mode="eval").body)
+                w_ = to_sympy(ast.parse(want2, mode="eval").body)
+            except (PyExprError, SyntaxError):
+                continue
+            if sp.simplify(g_ - w_) != 0:
+                bad.append("%s = %s, PSS/E definition gives %s" % (k, txt, want))
+        ctx.check(not bad, "C13.raw-formulas", "%s/%s" % (fname, model), "%d fields match the record definition" % len(ref),
+                  "; ".join(bad[:3]), "andes/io/psse.py:%d" % node.lineno)
+
+
 def rule_roundtrip(ctx, repo):
     # readers feed every record to system.add
     for rel in ("andes/io/xlsx.py", "andes/io/json.py"):
@@ -439,6 +491,7 @@ def run(ctx):
              "inverse scale; bus type codes agree", 30)
     ctx.rule("C13.mpc-branch", "branch records: tap/shift classification evaluated over all (ratio, angle) classes", 1)
     ctx.rule("C13.base", "importer records with base-dependent parameters state the file's system base as Sn", 5)
+    ctx.rule("C13.raw-formulas", "PSS/E records: imported values == the record definition (columns, MW->p.u., ZIP load referral, YQ sign)", 4)
     ctx.rule("C13.raw-columns", "PSS/E v33 record layouts: every physical column is read", 5)
     ctx.rule("C13.scatter", "cardinality-typed dataflow: additive quantities scattered through a device->bus index must accumulate", 2)
     ctx.rule("C13.roundtrip", "xlsx/json: writers emit the refreshed input-base view; readers feed every record to System.add; "
@@ -453,6 +506,7 @@ def run(ctx):
     rule_mpc_branch(ctx, repo)
     rule_import_bases(ctx, repo, models)
     rule_raw_columns(ctx, repo)
+    rule_raw_formulas(ctx, repo)
     rule_roundtrip(ctx, repo)
     rule_registry(ctx, repo)
     rule_dyr(ctx, repo, models)
